@@ -14,19 +14,22 @@ from . import consts as K
 SPEC_NAME = {"T_HOO": "THOO", "HCT": "HCT", "VHCT": "VHCT"}
 
 
-def extractor(S, RU, vhct):
+def extractor(S, RU, vhct, roff=0.0):
+    """roff: the session's rewards are roff + (grid value); evidence, mean, U and B are logged relative to roff.  T-HOO, HCT and
+    VHCT are equivariant under a translation of the rewards (means, U and B move by roff; counts, variances, widths, thresholds
+    and every arg-max stay), so the specification is evaluated on the relative values."""
     def f(n):
         tot = 0
         sq = 0
         for r in n.rewards:
-            v = r * RU
+            v = (r - roff) * RU
             iv = int(round(v))
             if iv != v:
                 return (R.NANC,) * 9
             tot += iv
             sq += iv * iv
         return (
-            R.capint(n.visited_times), tot, sq, len(n.rewards), R.fx(n.mean_reward, S), R.fx(n.u_value, S), R.fx(n.b_value, S),
+            R.capint(n.visited_times), tot, sq, len(n.rewards), R.fx(n.mean_reward - roff if n.rewards else n.mean_reward, S), R.fx(n.u_value - roff, S), R.fx(n.b_value - roff, S),
             R.fx(n.variance, S) if vhct else 0, R.capint(n.tau) if vhct else 0,
         )
     return f
@@ -89,7 +92,8 @@ def _run(cfg):
     P.update({k: v for k, v in tabs.items() if k != "amb"})
     S, RU = tabs["S"], tabs["RU"]
     algo = A.build(name, part, dom, n, cfg.get("prm", {}))
-    rec = R.SessionRec(algo, P, extractor=extractor(S, RU, name == "VHCT"), tid=cfg["id"], call_timeout=cfg.get("timeout", 30))
+    roff = float(cfg.get("roff", 0.0))
+    rec = R.SessionRec(algo, P, extractor=extractor(S, RU, name == "VHCT", roff), tid=cfg["id"], call_timeout=cfg.get("timeout", 30))
     rnd = random.Random(cfg["seed"] + 3)
     t0 = cfg.get("t0", 1)
     queries = set(cfg.get("queries", ()))
@@ -109,6 +113,10 @@ def _run(cfg):
         else:
             r = grid_reward(cfg["pattern"], rnd, RU, pt, box)
             ru = int(round(r * RU))
+        if roff:
+            r0, r = r, roff + r
+            if r - roff != r0:
+                raise RuntimeError("reward offset %r does not keep the grid value %r exact" % (roff, r0))
         rec.recv(t0 + i, R.cast_reward(r, cfg.get("rtype")), rcode=ru)
         if rec.failed:
             break
@@ -120,5 +128,5 @@ def _run(cfg):
         rec.glp()
     rec.end(before, dom)
     tr = rec.finalize(extra_boxes=[tuple((b[0], b[1]) for b in box)])
-    tr["cfg"] = {"algo": name, "kind": cfg["kind"], "K": cfg["K"], "D": D, "n": n, "T": T, "seed": cfg["seed"], "pattern": cfg.get("pattern", "script"), "prm": {k: v for k, v in cfg.get("prm", {}).items() if isinstance(v, (int, float, str))}, "box": cfg["box"]}
+    tr["cfg"] = {"algo": name, "kind": cfg["kind"], "K": cfg["K"], "D": D, "n": n, "T": T, "seed": cfg["seed"], "pattern": cfg.get("pattern", "script"), "roff": cfg.get("roff", 0), "prm": {k: v for k, v in cfg.get("prm", {}).items() if isinstance(v, (int, float, str))}, "box": cfg["box"]}
     return tr
